@@ -24,6 +24,7 @@ class Network(object):
         self.sent_log = []     # every datagram ever sent
         self.current_host = '10.0.0.1'
         self.current_owner = None   # label of the agent whose code is running (several agents may share a host)
+        self.ctx_hosts = {}         # main-loop context -> (host, owner): overrides current_host/current_owner (stack world)
         self.next_port = 50000
         self.dropped = 0
 
@@ -45,8 +46,7 @@ class SimUdpSocket(object):
         self.family = family
         self.type = type
         self.proto = proto
-        self.host = NET.current_host
-        self.owner = NET.current_owner
+        self.host, self.owner = NET.ctx_hosts.get(simloop.current(), (NET.current_host, NET.current_owner))
         self.port = None
         self.rxq = []
         self.opts = []
